@@ -10,14 +10,16 @@ import gen
 
 PROP = 'C14'
 NAN = float('nan')
-ALPHA = [-math.inf, -1.5, -0.0, 0.0, 2.0, math.inf, NAN]
-RULE = ('Every sequence of length <= L over {-inf, -1.5, -0.0, +0.0, 2.0, +inf, NaN} (which contains every permutation of '
+NEG_NAN = common.frombits(0xFFF8000000000000)      # a NaN with the sign bit set (what 0.0/0.0 produces on x86-64)
+ALPHA = [-math.inf, -1.5, -0.0, 0.0, 2.0, math.inf, NAN, NEG_NAN]
+RULE = ('Every sequence of length <= L over {-inf, -1.5, -0.0, +0.0, 2.0, +inf, NaN, -NaN (sign bit set)} (which contains every permutation of '
         'every multiset) fed to Min and Max by add (observed after every add), collect by value / by reference, extend '
         '(Min only: Max has no Extend impl), from_value(first)+add(rest), and through EVERY merge history with k<=3 chunks '
         '(all compositions incl. empty chunks x all trees x both orientations) for length <= Lh (sampled beyond); plus random '
         'long sequences over section-3.1 values with NaN / inf sprinkled in, through random merge trees. Model: numeric min / '
         'max of the non-NaN values absorbed (+inf / -inf if none), compared with == (so -0.0 and +0.0 are interchangeable). '
-        'distinct_nontrivial = distinct (type, program) cases that absorbed >= 2 values.')
+        'Position sweep: a stream of 4200 (thorough 20000) identical values with the unique extreme at EVERY position, ingested by one '
+        'collect / extend call over a generated iterator and over a slice. distinct_nontrivial = distinct (type, program) cases that absorbed >= 2 values.')
 ASSUME = ['driver faithfully prints accessor bit patterns', 'model: 2-line numeric min/max ignoring NaN']
 
 
@@ -42,6 +44,51 @@ def check(typ, kv, xs, res, c, variant, how):
     if any(x != x for x in xs):
         res.count('states_with_nan')
     return True
+
+
+def sweep_shard(desc):
+    """Position sweep: a long stream of identical values with the unique extreme at position pos, for EVERY pos in the
+    shard's slice, ingested by ONE collect / extend call over a generated (non-slice) iterator and over a slice iterator.
+    Whichever position a blocked / unrolled ingestion loop might drop, the extreme sits there in some case."""
+    res = Result()
+    variant = desc['variant']
+    n = desc['n']
+    cases = []
+    allmarks = {}
+    for typ in ('Min', 'Max'):
+        ext = -5.0 if typ == 'Min' else 5.0
+        c = None
+        for j, pos in enumerate(desc['positions']):
+            if j % 200 == 0:
+                c = Case('%s-%s-%d' % (desc['name'], typ, j), typ, meta={'n': n})
+                allmarks[c.id] = []
+                cases.append(c)
+            for code in (('FG', 'FGR', 'EG', 'EGR') if typ == 'Min' else ('FG', 'FGR')):
+                if code.startswith('E'):
+                    c.op('N', 0)
+                c.op(code, 0, n, pos, 1.0, ext)
+                allmarks[c.id].append((c.op('O', 0), pos, code))
+    logs = run_driver(desc['binary'], ''.join(c.text() for c in cases))
+    for c in cases:
+        recs = logs.get(c.id, [])
+        for r in recs:
+            if r.kind in ('p', 'e', 'd'):
+                res.violation(PROP, '%s:%s' % (c.type, 'panic' if r.kind == 'p' else 'harness'), '%s: op %d -> %s' % (c.type, r.op, r.rest), c, variant)
+        by_op = {r.op: r for r in recs if r.kind == 'o'}
+        ext = -5.0 if c.type == 'Min' else 5.0
+        for opi, pos, code in allmarks[c.id]:
+            r = by_op.get(opi)
+            if r is None:
+                continue
+            res.count('evaluations')
+            res.count('position_sweep_checks')
+            got = val(r.kv['min' if c.type == 'Min' else 'max'])
+            if not (got == ext):
+                how = {'FG': 'collect (generated iterator)', 'FGR': 'collect by reference', 'EG': 'extend (generated iterator)', 'EGR': 'extend by reference'}[code]
+                res.violation(PROP, '%s.%s:%s:lost-observation' % (c.type, 'min' if c.type == 'Min' else 'max', code),
+                              '%s %s of %d observations lost the extreme %r sitting at position %d (result %r)' % (c.type, how, n, ext, pos, got), c, variant)
+        res.distinct.add(c.key())
+    return res
 
 
 def all_histories(n, kmax):
@@ -185,9 +232,9 @@ def run(tier, seed):
     total = Result()
     rng = random.Random(seed)
     if tier == 'quick':
-        L, Lh, kmax, nrandom, variants = 5, 4, 3, 4000, [('release', 1.0), ('dev', 0.25)]
+        L, Lh, kmax, nrandom, variants = 5, 3, 3, 4000, [('release', 1.0), ('dev', 0.25)]
     else:
-        L, Lh, kmax, nrandom, variants = 6, 5, 3, 100000, [('release', 1.0), ('dev', 0.25)]
+        L, Lh, kmax, nrandom, variants = 6, 4, 3, 100000, [('release', 1.0), ('dev', 0.25)]
     work = []
     for n in range(0, L + 1):
         for seq in itertools.product(ALPHA, repeat=n):
@@ -195,7 +242,7 @@ def run(tier, seed):
                 if n <= Lh:
                     dh = 'all'
                 else:
-                    dh = 6
+                    dh = 2 if tier == 'quick' else 6
                 work.append((typ, seq, dh))
     try:
         for variant, frac in variants:
@@ -209,9 +256,14 @@ def run(tier, seed):
                       'kmax': kmax, 'nrandom': int(nrandom * frac) // nsh,
                       'seed': seed * 1000003 + s * 7919 + sum(map(ord, variant))} for s in range(nsh)]
             total.merge(common.run_shards(shard, descs))
+            nsweep = 4200 if tier == 'quick' else 20000
+            pos = list(range(nsweep)) if frac >= 1.0 else list(range(0, nsweep, 3))
+            sdescs = [{'name': 'w%s%d' % (variant[0], s), 'variant': variant, 'binary': binary, 'n': nsweep, 'positions': pos[s::nsh]}
+                      for s in range(nsh)]
+            total.merge(common.run_shards(sweep_shard, sdescs))
     except common.Inconclusive as e:
         total.inconclusive.append(str(e))
-    need = {'merge_histories': 5000, 'merge_into_empty': 1000, 'merge_of_empty': 1000, 'states_with_nan': 1000,
+    need = {'position_sweep_checks': 10000, 'merge_histories': 5000, 'merge_into_empty': 1000, 'merge_of_empty': 1000, 'states_with_nan': 1000,
             'random_long_cases': 500}
     return common.finish(PROP, tier, seed, total, RULE, t0, ASSUME, min_events=need, exhaustive=True,
                          extra={'builds': [v for v, _ in variants], 'exhaustive_sequence_length': L,
